@@ -61,6 +61,13 @@ fn date_parts() -> Vec<(&'static str, bool, usize)> {
         // the same text" is demanded (has_date = false); no field derived from the full year appears
         ("yy-MM-dd", false, 0),
         ("d.M.yy", false, 0),
+        // over-long runs: format falls back to the default width, parse must read that width back
+        ("yyyy-MM-ddd", true, 0),
+        ("yyyy-MM-dd wwww", true, 0),
+        ("yyyy-DDDD", true, 0),
+        ("yyyy-MM-dddddd eeeeeeeee", true, 0),
+        ("qqqqqq yyyy-MM-dd", true, 0),
+        ("GGGGGG yyyy-MM-dd", true, 0),
     ]
 }
 
@@ -104,6 +111,12 @@ fn time_parts() -> Vec<(&'static str, bool)> {
         ("HH:mm:ss (hh)", false),
         ("kk (KK) mm:ss.nnnnn", true),
         ("H 'or' h:mm:ss a", false),
+        // over-long runs of the clock fields (default width 2; a / b default to AM / PM style; n to milliseconds)
+        ("HHH:mmm:sss", false),
+        ("hhh:mm aaaaaa", false),
+        ("KKKK:mm:ss bbbbbb", false),
+        ("kkk:mm", false),
+        ("HH:mm:ss.nnnnnn", false),
     ]
 }
 
